@@ -4,7 +4,7 @@
 From Coq Require Import ZArith NArith List Bool.
 Import ListNotations.
 From SV Require Import Common.Int32 C01mir.Syntax C01mir.Sem C01mir.TailRec C01mir.ConstParam
-  C01mir.ProofsSem C01mir.ProofsTailRec C01mir.ProofsConstParam C01mir.ProofsWitness.
+  C01mir.ProofsSem C01mir.ProofsTailRec C01mir.ProofsTailRecConv C01mir.ProofsConstParam C01mir.ProofsWitness.
 Open Scope Z_scope.
 
 (* ------------------------------------------------------------------------------------------------------------
@@ -19,8 +19,11 @@ Open Scope Z_scope.
    the SOURCE program that is determined within the fuel (any outcome but OutOfFuel: result, trap, external call that
    does not return, stuck) is the behaviour of the REWRITTEN program at the SAME fuel.  That is the direction
    "compiled code behaves as the source prescribes": whatever the source semantics says about a run - with whatever
-   fuel it takes to say it - the compiled program does.  (By call_mono the rewritten program then shows it at every
-   larger fuel as well.  The converse - the loop version does not terminate more often - is not stated here.) *)
+   fuel it takes to say it - the compiled program does (C01mir_tailrec_preserves; by C01mir_fuel_monotone the
+   rewritten program then shows it at every larger fuel as well).  The converse (C01mir_tailrec_converse): every
+   determined outcome of the REWRITTEN program at fuel n is the outcome of the source program at fuel
+   bnd n = n (n + 3) / 2 - the loop version does not terminate more often.  Together (C01mir_tailrec_same_outcomes):
+   the two programs have the same determined outcomes, and hence both run out of every fuel or neither does. *)
 
 Theorem C01mir_tailrec_preserves :
   forall (w : world) (tp : name -> name) (k : N) (P : program),
@@ -37,6 +40,31 @@ Theorem C01mir_tailrec_preserves_rel :
     forall f args fuel,
       sem w P f args fuel <> OutOfFuel -> sem w P' f args fuel = sem w P f args fuel.
 Proof. exact tailrec_preserves_rel. Qed.
+
+(* the converse: the loop version does not terminate (or trap, or get stuck) more often *)
+Theorem C01mir_tailrec_converse :
+  forall (w : world) (tp : name -> name) (k : N) (P : program),
+    wf_tail_program tp k P = true ->
+    forall f args fuel,
+      sem w (tail_rec_program false tp k P) f args fuel <> OutOfFuel ->
+      sem w P f args (bnd fuel) = sem w (tail_rec_program false tp k P) f args fuel.
+Proof. exact tailrec_converse. Qed.
+
+Theorem C01mir_tailrec_converse_rel :
+  forall (w : world) (tp : name -> name) (P P' : program),
+    Forall2 (fn_rewritten tp) P P' ->
+    forall f args fuel,
+      sem w P' f args fuel <> OutOfFuel -> sem w P f args (bnd fuel) = sem w P' f args fuel.
+Proof. exact tailrec_converse_rel. Qed.
+
+(* same outcome up to fuel *)
+Theorem C01mir_tailrec_same_outcomes :
+  forall (w : world) (tp : name -> name) (k : N) (P : program),
+    wf_tail_program tp k P = true ->
+    forall f args o, o <> OutOfFuel ->
+      ((exists fuel, sem w P f args fuel = o) <->
+       (exists fuel, sem w (tail_rec_program false tp k P) f args fuel = o)).
+Proof. exact tailrec_same_outcomes. Qed.
 
 (* more fuel never changes a determined outcome *)
 Theorem C01mir_fuel_monotone :
@@ -65,6 +93,18 @@ Theorem C01mir_tailrec_discard_refuted :
     sem w [f] (f_name f) args fuel = Done 5 [] /\
     sem w [tail_rec_rewrite false tp k f] (f_name f) args fuel = Done 7 [].
 Proof. exact tailrec_discard_refuted. Qed.
+
+(* likewise a PARAMETER at a return leaf of a unit function (`if n > 0 { u(n - 1, x) } else { x }`, x: unit) is outside
+   the theorem: u(1, 3) = 0 but the loop version returns 3; with x = 0, the only value of a unit in a compiled program,
+   they agree.  The check recognises this class (TailRec.unit_param_class: every call site passes the literal 0 or
+   hands the parameter on) and reports such functions as covered by testing only. *)
+Theorem C01mir_tailrec_unit_param_refuted :
+  exists (w : world) (tp : name -> name) (k : N) (f : func) (fuel : nat),
+    unit_param_class tp k [f] f = true /\ tail_ok k f = false /\
+    sem w [f] (f_name f) [1; 3] fuel = Done 0 [] /\
+    sem w [tail_rec_rewrite false tp k f] (f_name f) [1; 3] fuel = Done 3 [] /\
+    sem w [f] (f_name f) [1; 0] fuel = sem w [tail_rec_rewrite false tp k f] (f_name f) [1; 0] fuel.
+Proof. exact tailrec_unit_param_refuted. Qed.
 
 (* non-vacuity: g(a, b, n) with a tail call in both branches satisfies the hypothesis, is rewritten, and both
    versions compute g(1, 5, 3) = 6 *)
@@ -125,9 +165,13 @@ Proof. exact (conj h_wf (conj (w0_closures h_prog) (conj (proj1 h_dropped) h_run
 
 Print Assumptions C01mir_tailrec_preserves.
 Print Assumptions C01mir_tailrec_preserves_rel.
+Print Assumptions C01mir_tailrec_converse.
+Print Assumptions C01mir_tailrec_converse_rel.
+Print Assumptions C01mir_tailrec_same_outcomes.
 Print Assumptions C01mir_fuel_monotone.
 Print Assumptions C01mir_tailrec_swapped_refuted.
 Print Assumptions C01mir_tailrec_discard_refuted.
+Print Assumptions C01mir_tailrec_unit_param_refuted.
 Print Assumptions C01mir_constparam_preserves.
 Print Assumptions C01mir_constparam_preserves_general.
 Print Assumptions C01mir_constparam_anypos_refuted.
